@@ -22,6 +22,7 @@ TRUSTED = {
     'cpython': 'CPython 3.12 semantics of the modelled subset (dataclasses, dict order, argument binding)',
     'ring': 'polynomial identities in the solver results are decided by normalisation in the field of rational functions (sympy, exact) for small terms and by Schwartz-Zippel evaluation at 4 random points of Z_p, p = 2^61-1 and 2^89-1 (one-sided error < 1e-60) for large ones; back end recorded per query as ring(exact) / ring(pit)',
     'json': 'json.dumps/loads and yaml.dump/safe_load are inverse to each other on trees of dict[str,..], list, str, bool, int, finite float and reject complex numbers (DESIGN sec. 4)',
+    'frame': 'the FRAME rules of pyvc/frame.py (which expressions allocate, which calls mutate) are a hand-written model of Python/numpy aliasing; numpy basic indexing is treated as a view, library calls not listed as allocating are treated as returning shared objects',
     'lean': 'Lean 4.33 kernel + Mathlib for spec-level lemmas (axioms: propext, Classical.choice, Quot.sound)',
 }
 
